@@ -249,6 +249,16 @@ pub fn run_spec(spec: &WorldSpec, ch: &mut Ch, verbose: bool) -> Outcome {
         }
     }
     check_c09_too_large(&r.server, &mut stats, &mut viol);
+    for l in &r.lanes {
+        for res in &l.results {
+            match res.status {
+                TStatus::Abandoned => stats.hit("fault.client-crash"),
+                TStatus::Failed("timeout") => stats.hit("client.gave-up-after-timeouts"),
+                _ => {}
+            }
+        }
+    }
+    stats.add("fault.noise-request", r.server.log.iter().filter(|a| a.tag.kind == TagKind::Noise).count() as u64);
     out.violations = viol;
     out.hash = r.trace.h.0;
     out.sim_ns = r.sim_ns;
